@@ -13,6 +13,8 @@ Inductive vtype := TStr | TBool | TInt | TFloat.
 Definition s_null : str := [110;117;108;108]%N.
 Definition s_true : str := [116;114;117;101]%N.
 Definition s_false : str := [102;97;108;115;101]%N.
+Definition s_nan : str := [110;97;110]%N.
+Definition s_inf : str := [105;110;102]%N.
 Definition is_null (v : pyval) : bool :=
   match v with VNone => true | VStr s => str_eqb s s_null | _ => false end.
 
@@ -43,6 +45,36 @@ Fixpoint uint_of_chars (s : str) : option uint :=
        else if c =? 57 then Some (D9 u) else None)%N
     end
   end.
+
+(* ---- what CPython does to a str before int()/float() parse it (_PyUnicode_TransformDecimalAndSpaceToASCII): every
+   non-ASCII character with the Unicode property Decimal (category Nd) becomes the ASCII digit of its value.  The Nd
+   characters of Unicode 15.0 (CPython 3.12) are 68 runs of ten consecutive code points, listed here by the code point of
+   their zero (the ASCII run 48..57 left out); re-checked against int(chr(c)) over 0..0x10FFFF by the C07 harness. ---- *)
+Definition digit_zeros : list N :=
+  [1632; 1776; 1984; 2406; 2534; 2662; 2790; 2918; 3046; 3174; 3302; 3430; 3558; 3664; 3792; 3872; 4160; 4240; 6112; 6160;
+   6470; 6608; 6784; 6800; 6992; 7088; 7232; 7248; 42528; 43216; 43264; 43472; 43504; 43600; 44016; 65296; 66720; 68912;
+   69734; 69872; 69942; 70096; 70384; 70736; 70864; 71248; 71360; 71472; 71904; 72016; 72784; 73040; 73120; 73552; 92768;
+   92864; 93008; 120782; 120792; 120802; 120812; 120822; 123200; 123632; 124144; 125264; 130032]%N.
+Definition to_ascii_digit (c : N) : N :=
+  if (c <? 128)%N then c else
+  match find (fun z => (z <=? c)%N && (c <=? z + 9)%N) digit_zeros with
+  | Some z => (48 + (c - z))%N
+  | None => c
+  end.
+(* the value as a decimal digit of a code point, if it has one (the table the harness compares with CPython) *)
+Definition decimal_value (c : N) : option N :=
+  let d := to_ascii_digit c in if is_digit d then Some (d - 48)%N else None.
+
+(* CPython >= 3.11 refuses to convert between int and str beyond sys.get_int_max_str_digits() = 4300 decimal digits (an
+   interpreter-wide default, not clikit's): int(text) with more digit characters (leading zeros count, underscores do not)
+   and str(z) of an integer with more digits raise ValueError. *)
+Definition MAX_STR_DIGITS : nat := 4300.
+Definition num_digits (z : Z) : nat :=
+  match Z.to_int z with Pos u => length (chars_of_uint u) | Neg u => length (chars_of_uint u) end.
+Definition int_text_ok (z : Z) : bool := Nat.leb (num_digits z) MAX_STR_DIGITS.
+(* float(z) of an integer: OverflowError (reported as ValueError since the fix) when z rounds to 2^1024 or beyond, i.e.
+   from the midpoint between the largest double 2^1024 - 2^971 and 2^1024 on (ties go to the even mantissa: up) *)
+Definition float_of_int_overflows (z : Z) : bool := (2 ^ 1024 - 2 ^ 970 <=? Z.abs z)%Z.
 
 (* ---- int(str): strip whitespace, optional sign, digits with single underscores between digits ---- *)
 (* whitespace that int()/float() strip: str.isspace() minus U+001C..U+001F (ASCII characters are
@@ -81,6 +113,11 @@ Definition int_of_str (s : str) : option Z :=
       end
     end
   end.
+(* int(str) of CPython 3.12: non-ASCII decimal digits count as digits; more than 4300 digit characters are refused *)
+Definition digit_chars (s : str) : nat := length (filter is_digit s).
+Definition int_of_text (s : str) : option Z :=
+  let t := map to_ascii_digit s in
+  if Nat.leb (digit_chars t) MAX_STR_DIGITS then int_of_str t else None.
 
 (* ---- float(str): acceptance grammar; the value stays text ---- *)
 Fixpoint take_digits (s : str) : str * str :=
@@ -108,7 +145,7 @@ Definition float_body_ok (s : str) : bool :=
     mant_ok && exp_ok.
 (* underscores in a float literal: allowed only between digits *)
 Definition float_of_str (s : str) : option str :=
-  let t := map lower_char (strip s) in
+  let t := map lower_char (strip (map to_ascii_digit s)) in
   let body := match t with 45%N :: r => r | 43%N :: r => r | _ => t end in
   match drop_underscores false body with
   | None => None
@@ -121,7 +158,7 @@ Definition parse_string (v : pyval) (nullable : bool) : res pyval :=
   match v with
   | VNone => Ok (VStr s_null)
   | VBool b => Ok (VStr (if b then s_true else s_false))
-  | VInt z => Ok (VStr (dec_text z))
+  | VInt z => if int_text_ok z then Ok (VStr (dec_text z)) else Err ValueError   (* str(z): the 4300-digit limit *)
   | VStr s => Ok (VStr s)
   | VFloat t => Ok (VStr t)             (* str(float): text outside the model; never generated *)
   | VList _ => Err (Other 9)            (* str(list): outside the model *)
@@ -146,17 +183,19 @@ Definition parse_int (v : pyval) (nullable : bool) : res pyval :=
   match v with
   | VBool b => Ok (VInt (if b then 1 else 0))
   | VInt z => Ok (VInt z)
-  | VStr s => match int_of_str s with Some z => Ok (VInt z) | None => Err ValueError end
+  | VStr s => match int_of_text s with Some z => Ok (VInt z) | None => Err ValueError end
   | VNone => Err ValueError            (* int(None): TypeError, reported as ValueError since the fix *)
   | VList _ => Err ValueError
-  | VFloat _ => Err (Other 9)          (* int(float) truncation: outside the model *)
+  | VFloat t =>                        (* int(nan): ValueError; int(inf): OverflowError, reported as ValueError since the fix *)
+    if str_eqb t s_nan || str_eqb t s_inf || str_eqb t (45%N :: s_inf) then Err ValueError
+    else Err (Other 9)                 (* int(finite float) truncation: outside the model *)
   end.
 
 Definition parse_float (v : pyval) (nullable : bool) : res pyval :=
   if nullable && is_null v then Ok VNone else
   match v with
   | VBool b => Ok (VFloat (if b then [49]%N else [48]%N))
-  | VInt z => Ok (VFloat (dec_text z))
+  | VInt z => if float_of_int_overflows z then Err ValueError else Ok (VFloat (dec_text z))
   | VStr s => match float_of_str s with Some t => Ok (VFloat t) | None => Err ValueError end
   | VFloat t => Ok (VFloat t)
   | VNone => Err ValueError
